@@ -584,6 +584,6 @@ def run(ctx, tier):
             'the current and the legacy format, and validity compares stored and recomputed hash; (validate-before-trust) in the header-selection trace no '
             'panic/assert depends on header bytes that have not passed the checksum test of the same header; (select-total) a header is returned only behind '
             'its own validity test, each of the two headers can be returned, and two valid headers are compared by transaction id; (seal-last) header images '
-            'are sealed after all fields are stored; (alternate) commits alternate between the two header slots, so the other header is always the previous commit; (fallback-kept) pages of the previous snapshot are filed as pending, never as free; (open-existing) open writes only into files it has just created, so an intact header is never overwritten on open; (header-extent) the header write is exactly one page long, so it cannot reach the other header. (O0) every successful return of commit passes a header write; (cow.write-set) data pages go only to pages the transaction allocated. (selection-validates) no call site switches the validity tests off through a constant argument; (open-refusals) refusal sites on the open path do not grow. NOT decided: '
+            'are sealed after all fields are stored; (alternate) commits alternate between the two header slots, so the other header is always the previous commit; (fallback-kept) pages of the previous snapshot are filed as pending, never as free; (open-existing) open writes only into files it has just created, so an intact header is never overwritten on open; (header-extent) the header write is exactly one page long, so it cannot reach the other header. (O0) every successful return of commit passes a header write; (cow.write-set) data pages go only to pages the transaction allocated. (selection-validates) no call site switches the validity tests off through a constant argument; (open-refusals) refusal sites on the open path do not grow. (header-views-confined) pages are viewed as header structs only by selection, creation and the image builder. NOT decided: '
             'collision resistance of the checksum, behaviour of the rest of open on the fallback snapshot.'),
         assumptions=['damage is confined to one header page', 'FNV-1a / SHA3 detect the damage (no collision)'])
